@@ -4,8 +4,11 @@ regenerate(): the inner formulas of the four shape descriptions and the `…Min`
 from the ShapeFactors.py under test into lean/KawinV/Gen/C15Shape.lean (concolic tracer).
 corr(): translator validation (generated defs on Float vs the Python methods), wrapper / clamp model
 vs the public wrappers (scalars, arrays, values below 1, argument arrays before/after), bisection
-model vs `_findRcrit`; direct oracle: the C15 predicates on the real functions, closed forms against
-numerical quadrature of the spheroid area and capacitance integrals."""
+model vs `_findRcrit`; call histories on the radius interface of one ShapeFactor (setters, evaluations with
+fresh / re-used / in-place updated argument objects, views, lists, scalars) vs the state-machine model with
+explicit object identities; direct oracle: the C15 predicates on the real functions, closed forms against
+numerical quadrature of the spheroid area and capacitance integrals, and after every evaluation of a call
+history: result = function of the current configuration and the current VALUES of the argument only."""
 import importlib.util, json, math, os, sys, traceback
 import numpy as np
 import vlib
@@ -13,7 +16,7 @@ from vlib import Result, enc_list, f2b, Toks, close
 
 PROP = 'C15'
 META = {
-    'level_text': 'Lean 4 theorems about definitions REGENERATED on every run from ShapeFactors.py by a concolic tracer (inner formulas and …Min constants of needle/plate/cuboidal/sphere) and about hand models of the public wrappers and of the _findRcrit bisection: unit-volume semi-axes with the requested aspect ratio; thermodynamic factor = spheroid (cuboid) area / equal-volume-sphere area and kinetic factor = spheroid capacitance / equal-volume radius as identities with the textbook closed forms (generic ordered field with the transcendental sub-terms as atoms, and over the reals with Mathlib rpow/arcsin/arccos/log, no atom hypotheses left); wrappers return the …Min constants at ar <= 1; continuity at 1 <=> …Min = formula(1), and over the reals ContinuousAt at 1 of all twelve public factor functions and of the semi-axes (needle/plate thermodynamic and kinetic factor tend to 1 via asin e/e -> 1 and (log(1+e)-log(1-e))/e -> 2, cuboid kinetic factor tends to 0.968); eq.-radius factor strictly increasing; scalar call = array call element-wise; clamp leaves the argument unchanged; bisection result / iteration-cap / fallback specification, bracket sign and halving invariants by induction, scalar-aspect closed form is an exact root; setter state machine of ShapeFactor (constructor, setAspectRatio, setPrecipitateShape / set<X>Shape, setSpherical): after ANY history the object matches the last shape and the last aspect-ratio specification, the active search of the public findRcrit is the closed form after a number and the bisection after a function, and its result obeys the root specification (by induction over the history). Generated defs and models are tied to the code by differential correspondence on every run (the critical-radius search only through the PUBLIC findRcrit on objects reached through random setter histories, incl. PrecipitateParameters().shapeFactor; which search ran is observed by counting the evaluations of the aspect-ratio function); the property predicates are also evaluated directly on the real functions, the closed forms against scipy quadrature of the area and capacitance integrals.',
+    'level_text': 'Lean 4 theorems about definitions REGENERATED on every run from ShapeFactors.py by a concolic tracer (inner formulas and …Min constants of needle/plate/cuboidal/sphere) and about hand models of the public wrappers and of the _findRcrit bisection: unit-volume semi-axes with the requested aspect ratio; thermodynamic factor = spheroid (cuboid) area / equal-volume-sphere area and kinetic factor = spheroid capacitance / equal-volume radius as identities with the textbook closed forms (generic ordered field with the transcendental sub-terms as atoms, and over the reals with Mathlib rpow/arcsin/arccos/log, no atom hypotheses left); wrappers return the …Min constants at ar <= 1; continuity at 1 <=> …Min = formula(1), and over the reals ContinuousAt at 1 of all twelve public factor functions and of the semi-axes (needle/plate thermodynamic and kinetic factor tend to 1 via asin e/e -> 1 and (log(1+e)-log(1-e))/e -> 2, cuboid kinetic factor tends to 0.968); eq.-radius factor strictly increasing; scalar call = array call element-wise; clamp leaves the argument unchanged; bisection result / iteration-cap / fallback specification, bracket sign and halving invariants by induction, scalar-aspect closed form is an exact root; setter state machine of ShapeFactor (constructor, setAspectRatio, setPrecipitateShape / set<X>Shape, setSpherical): after ANY history the object matches the last shape and the last aspect-ratio specification, the active search of the public findRcrit is the closed form after a number and the bisection after a function, and its result obeys the root specification (by induction over the history); radius interface (normalRadii / eqRadiusFactor / kineticFactor / thermoFactor of R) as a state machine over call histories with explicit argument-object identities: every answer of ANY history of setter calls and evaluations is the description-level function of the aspect ratios of the CURRENT values of the argument under the last shape and last aspect-ratio specification, i.e. the answer of a freshly constructed object (eval_history_independent, runR_answers), evaluations never look at the identity of the argument and leave the object unchanged; the identity-memo variant (aspect ratio cached per argument object) is modelled too: it agrees as long as no argument object changes its contents (memo_correct_of_immutable) and returns the stale answer after an in-place update (memo_stale_after_inplace_update). Generated defs and models are tied to the code by differential correspondence on every run (the critical-radius search only through the PUBLIC findRcrit on objects reached through random setter histories, incl. PrecipitateParameters().shapeFactor; which search ran is observed by counting the evaluations of the aspect-ratio function; the radius interface through random call histories on one object — setters, evaluations with fresh arrays / lists / scalars / 0-d arrays, the same object unchanged, the same object updated in place (R *= c, R += d, R[:] = ..., R[k] = ...), views of a common buffer — with the object identities and current contents in the op encoding); the property predicates are also evaluated directly on the real functions, the closed forms against scipy quadrature of the area and capacitance integrals.',
     'level_note': 'Monitored only (oracle, not proved): thermodynamic and kinetic factor of needle and plate increase with ar (grids on [1,100] and 1+10^-k); closed forms = the area / capacitance integrals (scipy.integrate.quad, rtol 1e-7); a bracketed root of a continuous objective is found before the 100-iteration cap (oracle on random aspect-ratio functions; the Lean theorem gives the bracket of width (Rmax-Rs)/2^n with a sign change, not convergence in 100 steps). The bracket invariant needs f(RcritSphere) != 0: with an exact root at the lower end the code walks off it and ends in the fallback, which is then that root (counter-example kept in Props/C15.lean). Trusted: Lean kernel + Mathlib, axioms propext/Classical.choice/Quot.sound; the tracer tools/py2lean/sym.py (every generated def re-validated numerically on each run); hand models equal the NumPy code as far as this run compared them; exact-field / real arithmetic instead of IEEE doubles (oracle continuity tolerance 1e-7 relative + 3*10^-k).',
     'technique': 'Lean 4 proof over generated definitions (py2lean) + hand models + differential correspondence + quadrature oracle',
     'design_ref': 'DESIGN.md section 6, C15',
@@ -31,6 +34,7 @@ ASSUMPTIONS = [
     'the cube-root / power atoms obey cbrt(x)^3 = x and x^(2/3) = cbrt(x)^2 (discharged for the real-number instance)',
 ]
 TRUSTED = ['setter semantics of ShapeFactor as modelled in KawinV.SFState (compared on every run through random histories)',
+           'the radius-interface model sees an argument as (object id, current contents): NumPy aliasing (views, in-place operators) is executed by NumPy in the harness, not modelled',
            'tools/py2lean/sym.py concolic tracer and emitter (every generated def is re-validated numerically on each run)',
            'np.atleast_1d / boolean-mask assignment / np.squeeze semantics as modelled in KawinV.Shape (compared on every run)']
 
@@ -983,8 +987,14 @@ def _corr(ctx, oracle_only=False, scale=1):
                 '(C) PUBLIC ShapeFactor.findRcrit on objects reached through setter histories: constructor (shape, scalar|function) / '
                 'ShapeFactor() / PrecipitateParameters().shapeFactor, then 0-5 calls of setAspectRatio / setPrecipitateShape(name|NAME) / '
                 'set<X>Shape / setSpherical with scalar or function (4 families) aspect ratios, bracket width 1.05..1e5, tol 1e-2..1e-9; '
-                '(D) grids on [1,100] and 1+10^-k, k=1..15, quadrature at random ratios. '
-                'non-trivial = aspect ratio > 1 involved (A,B,D) / history ends on a function and the search iterates (C); distinct = full case tuple')
+                '(D) grids on [1,100] and 1+10^-k, k=1..15, quadrature at random ratios; '
+                '(R) call histories on the radius interface of ONE ShapeFactor (constructor as in C, setters with scalar or vectorised radius-dependent '
+                'aspect ratios: constant, linear, power law, saturating, piecewise): 2-9 episodes of setter | evaluation of a fresh ndarray/list/0-d/float | '
+                'episode on one argument object (new ndarray/list/0-d array or a view [a:b:c] of an earlier buffer or an earlier object): evaluate, then 1-3 x '
+                '(R *= c | R += d | R[:] = v | R[k] = v | write through an alias | evaluate a fresh copy | setter | nothing) and evaluate the SAME object again; '
+                'after every evaluation: vs a fresh identically configured ShapeFactor on a copy, vs description(aspectRatio(current values)), vs scalar calls, argument untouched. '
+                'non-trivial = aspect ratio > 1 involved (A,B,D) / history ends on a function and the search iterates (C) / a radius-dependent configuration '
+                'evaluates an object updated in place since its previous evaluation (R); distinct = full case tuple')
     res.monitored = list(MONITORED)
     guard = Guard(res)
     try:
@@ -1171,7 +1181,10 @@ def _corr(ctx, oracle_only=False, scale=1):
                         if np.any((np.abs(ars - 1.0) <= 1e-12) & (ars != 1.0)):
                             res.near_tie_skipped += 1; continue          # the clamp at ar = 1 decides on the last bit
                         if not vlib.all_close(r['out'].reshape(-1), mcorrect, 1e-9):
-                            res.disagree('radius interface: evaluation #%d (%s, argument %s) of the history' % (r['op'], r['fn'], r['cls']),
+                            as_memo = vlib.all_close(r['out'].reshape(-1), mmemo, 1e-9)
+                            res.count('R:implementation-answers-like-the-identity-memo-variant' if as_memo else 'R:implementation-differs-from-both-models')
+                            res.disagree('radius interface: evaluation #%d (%s, argument %s) of the history%s' % (
+                                             r['op'], r['fn'], r['cls'], ' — the implementation gives the answer of the identity-memo variant (memoRun)' if as_memo else ''),
                                          {'ctor': c['ctor'], 'ops': c['ops'][:r['op'] + 1]}, r['out'].reshape(-1).tolist(), mcorrect)
                             break
                         if not vlib.all_close(mcorrect, mmemo, 1e-9):
